@@ -105,6 +105,8 @@ def _make_policy(world):
 
     def mk(name):
         async def hook(self, data):
+            # "fired": the hook reached the first addon (an async addon cancelled mid-hook hides it from later ones)
+            world.hooks_fired.append((world.loop.time(), name, data))
             p = world.policy
             if p is not None:
                 r = p(name, data)
@@ -137,6 +139,7 @@ class ProxyWorld:
         self.crashes: list = []
         self.errors: list = []
         self.hooks: list = []  # (t, name, key, data)
+        self.hooks_fired: list = []  # (t, name, data) as seen by the FIRST addon
         self.hook_listeners: list = []
         self.hook_done_listeners: list = []  # called when a hook (incl. interception) has completed
         self.timeouts: list = []  # (t, handler, hooks pending for that handler) at every idle-watchdog firing
